@@ -69,3 +69,9 @@ package reconnect
 // ---------------------------------------------------------------- C09: lock discipline
 //@ guarded[C09] Transport.writeResMu: writeResCh
 //@ guarded[C09] Transport.mu: transport
+
+// Dial hands the loops a transport that wraps the connection it just dialled, with the configured
+// redial budget and interval (defaults only for zero) and an empty reply table of its own.
+//@ func Dial
+//@   props C18
+//@   assert go Transport).writeLoop: arg0 != nil && arg0.transport == tr && arg0.transport != nil && arg0.ctx != nil && arg0.writeResCh != nil && len(arg0.writeResCh) == 0 && arg0.maxReconnectAttempts == ite(old(c.MaxReconnectAttempts) == 0, 30, old(c.MaxReconnectAttempts)) && arg0.reconnectInterval == ite(old(c.ReconnectInterval) == 0, 1000000000, old(c.ReconnectInterval)) && arg0.logger != nil
